@@ -8,6 +8,7 @@ Require Import Cadence.Model.Sock.
 Require Import Cadence.Proofs.WriterBase.
 Require Import Cadence.Proofs.WriterInv.
 Require Import Cadence.Proofs.WriterRun.
+Require Import Cadence.Proofs.WriterThms.
 Require Import Cadence.Proofs.StatsProofs.
 
 (* ------------------------------------------------------------------ unbuffered sinks *)
@@ -191,4 +192,150 @@ Proof.
   intros R. cbn zeta. unfold sc_buffered. rewrite R. cbn [snd].
   destruct (updates_totals (map attempt_of_log (lg s))) as (A & B & C & D).
   repeat split; auto. rewrite counts_add, map_length. reflexivity.
+Qed.
+
+(* ------------------------------------------------------------------ histories whose fault script is
+   re-dictated before every call (what a listener that comes and goes does to a buffered socket
+   sink): the specification of whole histories (WriterRun.run_post) holds of them too, because the
+   specification of one call never looks at the script. *)
+Fixpoint wsteps (s : st) (n : nat) (ops : list (op * bool)) : list ores * st :=
+  match ops with
+  | [] => ([], s)
+  | (o, up) :: r =>
+    let '(x, s1) := step (with_script s up) n o in
+    let '(xs, s2) := wsteps s1 (S n) r in (x :: xs, s2)
+  end.
+
+Lemma wsteps_spec ops : forall s n rs s',
+  Inv s -> wsteps s n ops = (rs, s') -> exists atts, run_post s n (map fst ops) rs s' atts.
+Proof.
+  induction ops as [|[o up] ops IH]; intros s n rs s' I H; cbn [wsteps map fst] in H |- *.
+  - inversion H; subst. exists []. constructor; auto using same_cfg_refl.
+    + now rewrite app_nil_r.
+    + cbn. now rewrite app_nil_r.
+    + intros i x Hn. destruct i; discriminate.
+  - destruct (step (with_script s up) n o) as [x s1] eqn:S1.
+    destruct (wsteps s1 (S n) ops) as [xs s2] eqn:R. inversion H; subst; clear H.
+    destruct (step_spec _ _ _ _ _ (inv_with_script s up I) S1) as [a1 P1].
+    destruct P1 as [I1 [C1 E1] [X1 O1] F1 R1 Er1 L1 A1 _ _ _].
+    cbn [with_script set_io cap ending lg bids] in C1, E1, X1, F1, L1, A1.
+    destruct (IH _ _ _ _ I1 R) as [a2 P2].
+    destruct P2 as [I2 [C2 E2] X2 O2 F2 Len2 R2 L2 A2 Err2 Own2].
+    rewrite C1, E1 in *.
+    exists (a1 ++ a2). constructor.
+    + exact I2.
+    + split; congruence.
+    + rewrite X2, X1. now rewrite app_assoc.
+    + apply Forall_app; split.
+      * eapply Forall_impl; [|exact O1]. cbn. intros a Ha. cbn [length]. lia.
+      * eapply Forall_impl; [|exact O2]. cbn. intros a Ha. cbn [length]. lia.
+    + apply Forall_app; split; assumption.
+    + cbn. now rewrite Len2.
+    + constructor; assumption.
+    + cbn [acked].
+      rewrite sentL_app, <- app_assoc, (filter_app _ (sentL a1)), L2, <- filter_app.
+      rewrite app_assoc, (filter_app _ (sentL a1 ++ bids s1)), L1, <- filter_app.
+      rewrite (filter_app _ (acked1 n o x)). now rewrite !app_assoc.
+    + cbn [acked]. rewrite sentA_app, A1, A2, filter_app. reflexivity.
+    + intros i y Hn. destruct i as [|i]; cbn in Hn.
+      * inversion Hn; subst y. rewrite Nat.add_0_r.
+        assert (Hin : forall o', err_last a1 o' -> exists a, In a (a1 ++ a2) /\ a_op a = n /\ a_out a = o').
+        { intros o' El. destruct (err_last_in _ _ El) as (a & Ia & Oa). exists a.
+          split; [apply in_or_app; left; exact Ia|]. split; [|exact Oa].
+          rewrite Forall_forall in O1. now apply O1. }
+        destruct x; cbn in Er1; auto.
+      * specialize (Err2 i y Hn).
+        replace (n + S i) with (S n + i) by lia.
+        destruct y; auto; destruct Err2 as (a & Ia & Oa & Ua); exists a;
+          (split; [apply in_or_app; right; exact Ia|split; assumption]).
+    + apply Forall_app; split; [|exact Own2].
+      apply Forall_forall. intros a Ha g Hg.
+      pose proof (sentA_in _ _ _ Ha Hg) as Hs. rewrite A1 in Hs.
+      apply filter_In in Hs. destruct Hs as [Hs _].
+      rewrite Forall_forall in O1. rewrite (O1 a Ha).
+      unfold acked1 in Hs. destruct o; [|contradiction]. destruct x; try contradiction.
+      destruct Hs as [Hs|[]]. subst g. reflexivity.
+Qed.
+
+(* the writer calls of a scenario, each with the listener's state at the time *)
+Fixpoint sc_wops (up : bool) (ops : list sop) : list (op * bool) :=
+  match ops with
+  | [] => []
+  | SEmit m :: r => (Emit m, up) :: sc_wops up r
+  | SFlush :: r => (Flush, up) :: sc_wops up r
+  | SDown :: r => sc_wops false r
+  | SUp :: r => sc_wops true r
+  end.
+
+Fixpoint sc_final_up (up : bool) (ops : list sop) : bool :=
+  match ops with
+  | [] => up
+  | SDown :: r => sc_final_up false r
+  | SUp :: r => sc_final_up true r
+  | _ :: r => sc_final_up up r
+  end.
+
+Lemma sc_buf_wsteps queued : forall ops up s n rs s' n' up',
+  sc_buf queued up s n ops = (rs, s', n', up') ->
+  snd (wsteps s n (sc_wops up ops)) = s' /\ n' = n + length (sc_wops up ops) /\ up' = sc_final_up up ops.
+Proof.
+  induction ops as [|o ops IH]; intros up s n rs s' n' up' H.
+  - inversion H; subst. cbn. repeat split; lia.
+  - destruct o as [m| | |]; cbn [sc_buf sc_wops wsteps sc_final_up length] in H |- *.
+    + destruct (step (with_script s up) n (Emit m)) as [x s1] eqn:S1.
+      destruct (sc_buf queued up s1 (S n) ops) as [[[rs0 s2] n2] up2] eqn:R. inversion H; subst; clear H.
+      destruct (IH _ _ _ _ _ _ _ R) as (A & B & C).
+      destruct (wsteps s1 (S n) (sc_wops up ops)) as [xs sx]. cbn [snd] in *. repeat split; auto; lia.
+    + destruct (step (with_script s up) n Flush) as [x s1] eqn:S1.
+      destruct (sc_buf queued up s1 (S n) ops) as [[[rs0 s2] n2] up2] eqn:R. inversion H; subst; clear H.
+      destruct (IH _ _ _ _ _ _ _ R) as (A & B & C).
+      destruct (wsteps s1 (S n) (sc_wops up ops)) as [xs sx]. cbn [snd] in *. repeat split; auto; lia.
+    + destruct (sc_buf queued false s n ops) as [[[rs0 s2] n2] up2] eqn:R. inversion H; subst; clear H.
+      exact (IH _ _ _ _ _ _ _ R).
+    + destruct (sc_buf queued true s n ops) as [[[rs0 s2] n2] up2] eqn:R. inversion H; subst; clear H.
+      exact (IH _ _ _ _ _ _ _ R).
+Qed.
+
+(* C07 for a whole scenario on a buffered socket sink, whatever the listener does and whenever:
+   with [xs] the writer's own answers to the calls and [s] the sink before it goes away,
+   - an answer that is an error is the error of a send that was refused during that very call,
+   - the lines that were sent plus the lines still buffered are exactly the metrics that fit and whose
+     emit was answered Ok - nothing reported lost is sent later, nothing answered Ok is missing,
+   - the oversized metrics that went out alone are exactly those whose emit was answered Ok,
+   - and when the listener is there at the end, the final drop empties the buffer *)
+Theorem sc_buffered_ledger co queued ops rs s n up xs :
+  sc_buf queued true (sink_init co []) 0 ops = (rs, s, n, up) ->
+  fst (wsteps (sink_init co []) 0 (sc_wops true ops)) = xs ->
+  let c := match co with Some k => k | None => default_capacity end in
+  let wops := map fst (sc_wops true ops) in
+  (forall i er, nth_error xs i = Some (OErr er) ->
+     exists a, In a (lg s) /\ a_op a = i /\ a_out a = WErr er) /\
+  filter (nzb newline) (sentL (lg s) ++ bids s) = filter (nzb newline) (fit_ids c newline (acked 0 wops xs)) /\
+  sentA (lg s) = big_ids c newline (acked 0 wops xs) /\
+  (up = true -> bids (mlw_drop (with_script s up) n) = []).
+Proof.
+  intros R X c wops.
+  destruct (sc_buf_wsteps queued _ _ _ _ _ _ _ _ R) as (S' & N' & U').
+  destruct (wsteps (sink_init co []) 0 (sc_wops true ops)) as [xs0 s0] eqn:W. cbn [fst snd] in *. subst xs0 s0.
+  destruct (wsteps_spec _ _ _ _ _ (inv_init _ _ _) W) as [atts P].
+  destruct P as [I [C E] Lg _ _ _ _ L A Err _].
+  cbn [sink_init init lg cap ending bids app] in Lg, L, A, C, E. fold c in L, A.
+  split; [|split; [|split]].
+  - intros i er Hn. specialize (Err i (OErr er) Hn). cbn in Err. rewrite Lg. exact Err.
+  - rewrite Lg. exact L.
+  - rewrite Lg. exact A.
+  - clear U'. intros Up. subst up. unfold mlw_drop.
+    destruct (flush_buf (with_script s true) n) as [r s2] eqn:F. cbn [snd].
+    pose proof F as F0. apply flushbuf_spec in F; [|apply inv_with_script, I].
+    destruct F as (_ & _ & datts & [X _] & _ & _ & _ & _ & _ & M).
+    destruct r; try contradiction.
+    + now destruct M.
+    + (* an error is impossible: the script only answers Ok *)
+      exfalso. destruct M as [M _].
+      assert (Ok : Forall (fun a => a_out a = WOk) datts).
+      { clear - F0 X. unfold flush_buf in F0. cbn [with_script set_io bbuf sc] in F0.
+        destruct (bbuf s) eqn:B.
+        - inversion F0.
+        - unfold up_script in F0. cbn [repeat length flush_loop under set_io sc lg] in F0. inversion F0. }
+      eapply err_last_not_ok; [exact Ok| |exact M]. discriminate.
 Qed.
